@@ -16,7 +16,7 @@ EXTENDS VpkOps, TLC, Json
 CONSTANTS Names,      \* file names (abstract: every spelling of a name is the same name)
           SizeSel,    \* which content-size table
           Limit,      \* dir_data_limit (-1 = None)
-          Single,     \* single-file VPK
+          FName,      \* the name of the archive file ("..._dir.vpk" = directory archive, else single file)
           ArchIdx,    \* archive indexes offered to add_file / write (-1 = None)
           NArch,      \* numbered archives 0 .. NArch-1
           Cs,         \* content ids offered to add_file / write (0 = empty)
@@ -44,7 +44,7 @@ VARIABLES st,     \* the state record of VpkOps
           act     \* last action (hidden by VIEW; printed by Emit)
 vars == <<st, nw>>
 
-Init == /\ st = [sz |-> SizeTab, limit |-> Limit, single |-> Single, mode |-> "none",
+Init == /\ st = [sz |-> SizeTab, limit |-> Limit, fname |-> FName, single |-> ~IsDirName(FName), mode |-> "none",
                  tree |-> Empty, foot |-> <<>>, arch |-> [i \in 1..NArch |-> <<>>],
                  disk |-> [st |-> "missing", tree |-> Empty, foot |-> <<>>],
                  want |-> Empty, wantDisk |-> Empty]
@@ -99,6 +99,7 @@ FailureIsNoop == [][(act'.res # "ok") => st' = st]_vars
 DirFileStable == [][(st'.disk # st.disk) => act'.op \in {"writedir", "reopen"}]_vars
 
 View == vars
+\* (arch[i] is the contents of the file ArchName(FName, i - 1); the harness lists the directory by name)
 Obs(s) == [mode |-> s.mode, tree |-> s.tree, foot |-> s.foot, arch |-> s.arch, disk |-> s.disk,
            want |-> s.want, wantDisk |-> s.wantDisk]
 Emit == PrintT(ToJson([tag |-> "EDGE", s |-> Obs(st), a |-> act', t |-> Obs(st')]))
